@@ -64,7 +64,7 @@ def model_configs(ctx, rng):
                     rhs, y0, _ = ivpgen.system(rng, dim, t1 - t0, t0, kinds=["rough", "lin", "rough"])
                 tol = 10.0 ** (-rng.uniform(3, 8))
                 cases.append(ivpgen.base_case(0, solver, dim, t0, t1, r["dtmin"] * TICK, r["dtmax"] * TICK, tol, rhs, y0,
-                                              origin="model", variant=variant, snaps=(len(cases) % 4 == 0)))
+                                              origin="model", variant=variant, snaps=(len(cases) % 4 == 0), evals=(len(cases) % 4 == 0)))
     return cases
 
 
@@ -82,7 +82,8 @@ def seeded(ctx, rng, per_solver):
             rhs, y0, _ = ivpgen.system(rng, dim, span, t0, kinds=kinds)
             cases.append(ivpgen.base_case(0, solver, dim, t0, t1, dtmin, dtmax, tol, rhs, y0, origin="seeded",
                                           dyn=(rng.random() < 0.2), max_items=1000000,
-                                          snaps=(j % 3 == 0 and span / dtmax <= 300)))      # design level on a third of the runs
+                                          snaps=(j % 3 == 0 and span / dtmax <= 300),       # design level on a third of the runs,
+                                          evals=(j % 3 == 0 and span / dtmax <= 300)))      # with the derivative-evaluation times
     return cases
 
 
@@ -96,6 +97,7 @@ def design_level(ctx, events, byid):
     drifts, nruns = ivpcommon.validate_design(ctx, ivpcommon.annotate_snaps(ev))
     ctx.notes["design_level_runs_validated"] = nruns
     ctx.notes["design_level_snapshots"] = sum(1 for e in ev if e["ev"] == "snap")
+    ctx.notes["design_level_derivative_evaluation_times"] = sum(1 for e in ev if e["ev"] == "eval")
     for cid, bad in drifts:
         ctx.drift.append({"solver": byid[cid]["solver"], "case": ivpcommon.case_brief(byid[cid]), "unexplained_event": vlib.decode(bad)})
     return len(drifts)
@@ -107,7 +109,7 @@ def judge(ctx, cases):
     byid = {c["id"]: c for c in cases}
     events = ivpcommon.harness_runs(ctx, cases)
     ndrift = design_level(ctx, events, byid)
-    events = [e for e in events if e["ev"] != "snap"]
+    events = [e for e in events if e["ev"] not in ("snap", "eval")]
     viols = ivpcommon.validate(ctx, events, "Val_Ivp")
     stats = ivpcommon.run_stats(events)
     for cid, st in stats.items():
